@@ -12,7 +12,28 @@ let handle (toks : string list) : string =
            let hops = parse_nops (zs base) ops in
            let model = show_strace (run_nhops c hops) in
            let impl = String.concat " " obs in
-           if model <> impl then "diff session_trace model=" ^ model else "ok nt"
+           let tbl = Hashtbl.create 64 in
+           let tr = parse_strace tbl obs in
+           let cls = List.sort_uniq compare (List.map string_of_nclause (chk_C10 c (zs base) tr)) in
+           (* narrow the start_not_earliest clause: is the reported start the timestamp of the first-arrived row? *)
+           let start_kind =
+             if not (List.mem "start_not_earliest" cls) then "" else
+             let seen = Hashtbl.create 16 in
+             let kinds = ref [] in
+             List.iter (function
+               | SvBatch (k, st, en, rows) ->
+                   let key = (int_of_z k, int_of_z st, int_of_z en) in
+                   if not (Hashtbl.mem seen key) then begin
+                     Hashtbl.replace seen key ();
+                     let tss = List.map (fun r -> int_of_z (kts r)) rows in
+                     let mn = List.fold_left min max_int tss in
+                     if int_of_z st <> mn then
+                       kinds := (if tss <> [] && int_of_z st = List.hd tss then "start_is_first_arrival" else "start_is_something_else") :: !kinds
+                   end
+               | _ -> ()) tr;
+             " " ^ String.concat "," (List.sort_uniq compare !kinds) in
+           if cls <> [] then "chk " ^ String.concat "," cls ^ start_kind ^ (if model <> impl then " (and model differs)" else "")
+           else if model <> impl then "diff session_trace model=" ^ model else "ok nt"
        | _ -> "bad line")
   | _ -> "bad line"
 
